@@ -7,6 +7,7 @@ package main
 
 import (
 	"bytes"
+	"encoding/json"
 	"errors"
 	"fmt"
 	"runtime"
@@ -90,13 +91,19 @@ func genXProps(c *Ctx) []xprop {
 		func() xprop { return xprop{"exif", "ExposureTime", rat(), "", nil} },
 		func() xprop { return xprop{"exif", "ExposureProgram", num(9), "", nil} },
 		func() xprop { return xprop{"exif", "ExposureMode", num(3), "", nil} },
-		func() xprop { return xprop{"exif", "ExposureBiasValue", fmt.Sprintf("%d/%d", c.Rng.Intn(7)-3, 1+c.Rng.Intn(3)), "", nil} },
+		func() xprop {
+			return xprop{"exif", "ExposureBiasValue", fmt.Sprintf("%d/%d", c.Rng.Intn(7)-3, 1+c.Rng.Intn(3)), "", nil}
+		},
 		func() xprop { return xprop{"exif", "FocalLength", rat(), "", nil} },
 		func() xprop { return xprop{"exif", "SubjectDistance", rat(), "", nil} },
 		func() xprop { return xprop{"exif", "MeteringMode", num(7), "", nil} },
 		func() xprop { return xprop{"exif", "FNumber", rat(), "", nil} },
-		func() xprop { return xprop{"exif", "GPSLatitude", fmt.Sprintf("%.6f", c.Rng.Float64()*180-90), "", nil} },
-		func() xprop { return xprop{"exif", "GPSLongitude", fmt.Sprintf("%.6f", c.Rng.Float64()*360-180), "", nil} },
+		func() xprop {
+			return xprop{"exif", "GPSLatitude", fmt.Sprintf("%.6f", c.Rng.Float64()*180-90), "", nil}
+		},
+		func() xprop {
+			return xprop{"exif", "GPSLongitude", fmt.Sprintf("%.6f", c.Rng.Float64()*360-180), "", nil}
+		},
 		func() xprop { return xprop{"exif", "GPSAltitude", fmt.Sprintf("%.2f", c.Rng.Float64()*8000), "", nil} },
 		func() xprop { return xprop{"aux", "SerialNumber", short(), "", nil} },
 		func() xprop { return xprop{"aux", "Lens", str(), "", nil} },
@@ -104,7 +111,9 @@ func genXProps(c *Ctx) []xprop {
 		func() xprop { return xprop{"aux", "LensID", num(100000), "", nil} },
 		func() xprop { return xprop{"aux", "LensSerialNumber", short(), "", nil} },
 		func() xprop { return xprop{"aux", "ImageNumber", num(65000), "", nil} },
-		func() xprop { return xprop{"aux", "FlashCompensation", fmt.Sprintf("%d/%d", c.Rng.Intn(7)-3, 1+c.Rng.Intn(3)), "", nil} },
+		func() xprop {
+			return xprop{"aux", "FlashCompensation", fmt.Sprintf("%d/%d", c.Rng.Intn(7)-3, 1+c.Rng.Intn(3)), "", nil}
+		},
 		func() xprop { return xprop{[]string{"xmp", "xap"}[c.Rng.Intn(2)], "CreateDate", date(), "", nil} },
 		func() xprop { return xprop{"xmp", "CreatorTool", str(), "", nil} },
 		func() xprop { return xprop{"xmp", "Label", short(), "", nil} },
@@ -116,7 +125,9 @@ func genXProps(c *Ctx) []xprop {
 		func() xprop { return xprop{"xmpMM", "InstanceID", uuid(), "", nil} },
 		func() xprop { return xprop{"xmpMM", "PreservedFileName", short(), "", nil} },
 		func() xprop { return xprop{"crs", "RawFileName", short(), "", nil} },
-		func() xprop { return xprop{"dc", "format", []string{"image/jpeg", "image/x-canon-cr2", "image/tiff"}[c.Rng.Intn(3)], "", nil} },
+		func() xprop {
+			return xprop{"dc", "format", []string{"image/jpeg", "image/x-canon-cr2", "image/tiff"}[c.Rng.Intn(3)], "", nil}
+		},
 	}
 	arrays := []func() xprop{
 		func() xprop { return xprop{"dc", "creator", "", "Seq", nil} },
@@ -231,6 +242,11 @@ func init() {
 		x, err := xmp.ParseXmp(bytes.NewReader(unhex(a[0])))
 		return xmpErr(err) + " " + fullXMP(x)
 	}
+	// xmparr <hex>: the array properties as the library reports them
+	workerOps["xmparr"] = func(a []string) string {
+		x, err := xmp.ParseXmp(bytes.NewReader(unhex(a[0])))
+		return xmpErr(err) + " " + arraysJSON(x.DC.Creator, x.DC.Subject, x.DC.Description, x.DC.Rights, x.DC.Title)
+	}
 	// xmpapply <modelErr> <tok>... : the model's tuple stream through the library's value parsers
 	workerOps["xmpapply"] = func(a []string) string {
 		var x xmp.XMP
@@ -254,6 +270,7 @@ func runC13(c *Ctx) error {
 	n := c.N(300, 8000)
 	type job struct {
 		req, mreq, expect, tag string
+		arrays                 string // the array properties of the record, written down independently of the library (items in document order)
 		pair                   int
 		long                   bool // some value is longer than the 1024 bytes the reader must handle: an error is then acceptable
 	}
@@ -272,6 +289,13 @@ func runC13(c *Ctx) error {
 			}
 			return serialiseXMP(c, props, st), st.form
 		}
+		arrWant := map[string][]string{}
+		for _, p := range props {
+			if p.array != "" {
+				arrWant[p.name] = append([]string{}, p.items...)
+			}
+		}
+		arrJSON := arraysJSON(arrWant["creator"], arrWant["subject"], arrWant["description"], arrWant["rights"], arrWant["title"])
 		long := false
 		for _, p := range props {
 			if len(p.val) > 1024 {
@@ -285,12 +309,12 @@ func runC13(c *Ctx) error {
 		}
 		mixed, forms := mk(func(int) bool { return c.Rng.Intn(2) == 0 })
 		nontag := "mixed" + []string{"", "", "-tabs-cr", "-longws"}[pi]
-		jobs = append(jobs, job{req: "xmpimpl " + hexs(mixed), mreq: "xmp.parse " + hexs(mixed), expect: "nil " + expectedXMP(props, forms), tag: nontag, pair: -1, long: long})
+		jobs = append(jobs, job{req: "xmpimpl " + hexs(mixed), mreq: "xmp.parse " + hexs(mixed), expect: "nil " + expectedXMP(props, forms), tag: nontag, pair: -1, long: long, arrays: arrJSON})
 		a, fa := mk(func(int) bool { return true })
 		ia := len(jobs)
-		jobs = append(jobs, job{req: "xmpimpl " + hexs(a), mreq: "xmp.parse " + hexs(a), expect: "nil " + expectedXMP(props, fa), tag: "attr" + []string{"", "", "-tabs-cr", "-longws"}[pi], pair: -1, long: long})
+		jobs = append(jobs, job{req: "xmpimpl " + hexs(a), mreq: "xmp.parse " + hexs(a), expect: "nil " + expectedXMP(props, fa), tag: "attr" + []string{"", "", "-tabs-cr", "-longws"}[pi], pair: -1, long: long, arrays: arrJSON})
 		e, fe := mk(func(int) bool { return false })
-		jobs = append(jobs, job{req: "xmpimpl " + hexs(e), mreq: "xmp.parse " + hexs(e), expect: "nil " + expectedXMP(props, fe), tag: "elem" + []string{"", "", "-tabs-cr", "-longws"}[pi], pair: ia, long: long})
+		jobs = append(jobs, job{req: "xmpimpl " + hexs(e), mreq: "xmp.parse " + hexs(e), expect: "nil " + expectedXMP(props, fe), tag: "elem" + []string{"", "", "-tabs-cr", "-longws"}[pi], pair: ia, long: long, arrays: arrJSON})
 		if i%2 == 0 {
 			for _, m := range mutate(c, epInput{Data: mixed}, 2) {
 				jobs = append(jobs, job{req: "xmpimpl " + hexs(m.Data), mreq: "xmp.parse " + hexs(m.Data), tag: "malformed", pair: -1})
@@ -322,6 +346,21 @@ func runC13(c *Ctx) error {
 	// the model's tuple streams through the value parsers
 	fin := make([]string, len(jobs))
 	runPool(len(jobs), 8*time.Second, func(wk *Worker, i int) { fin[i] = wk.Call("xmpapply " + model[i]) })
+	// independent expectation for the array properties (the hook-based expectation above shares the library's value parsers)
+	arrAns := make([]string, len(jobs))
+	runPool(len(jobs), 8*time.Second, func(wk *Worker, i int) {
+		if jobs[i].arrays != "" {
+			arrAns[i] = wk.Call("xmparr " + strings.TrimPrefix(jobs[i].req, "xmpimpl "))
+		}
+	})
+	for i, j := range jobs {
+		if j.arrays != "" && !j.long && strings.HasPrefix(arrAns[i], "nil ") {
+			c.Stat("arrays.compared")
+			if got := strings.TrimPrefix(arrAns[i], "nil "); got != j.arrays {
+				c.Violate(Case{Entry: "xmp.ParseXmp", Input: j.req, Expected: j.arrays, Actual: got, Kind: "wrong-value", Class: "array-items:" + arrayDiff(j.arrays, got)})
+			}
+		}
+	}
 	for i, j := range jobs {
 		got := ans[i]
 		c.Count(j.req, strings.Count(j.expect, ":") >= 3 || j.expect == "")
@@ -360,4 +399,24 @@ func runC13(c *Ctx) error {
 // bigPads = 1 includes runs of white space longer than the reader's 128-byte header window
 var bigPads = 0
 
-func fullXMP(x xmp.XMP) string { return strings.ReplaceAll(strings.ReplaceAll(fmt.Sprintf("%+v", x), " ", "_"), "\n", "\\n") }
+func arraysJSON(creator, subject, description, rights, title []string) string {
+	b, _ := json.Marshal(map[string][]string{"creator": creator, "subject": subject, "description": description, "rights": rights, "title": title})
+	return strings.ReplaceAll(string(b), " ", "\\u0020")
+}
+
+// arrayDiff names the first array property on which two arraysJSON strings differ
+func arrayDiff(a, b string) string {
+	var x, y map[string][]string
+	json.Unmarshal([]byte(strings.ReplaceAll(a, "\\u0020", " ")), &x)
+	json.Unmarshal([]byte(strings.ReplaceAll(b, "\\u0020", " ")), &y)
+	for _, k := range []string{"creator", "subject", "description", "rights", "title"} {
+		if fmt.Sprint(x[k]) != fmt.Sprint(y[k]) || len(x[k]) != len(y[k]) {
+			return k
+		}
+	}
+	return "none"
+}
+
+func fullXMP(x xmp.XMP) string {
+	return strings.ReplaceAll(strings.ReplaceAll(fmt.Sprintf("%+v", x), " ", "_"), "\n", "\\n")
+}
